@@ -1,58 +1,56 @@
-use vharness::{compare::*, dsched::*, reference::*, runner::*, scenario::*, world::*};
+use vharness::{checks, driver};
 
-fn chain_scenario(conc: u8, schedule: Option<Schedule>) -> Scenario {
-    use Expr::*;
-    let con = ContractDef {
-        balance: Bal::Zero,
-        storage: vec![],
-        code: Code::Routines(vec![
-            vec![Stmt::SStore(0, Const(1))],
-            vec![Stmt::If(SLoad(0), vec![Stmt::SStore(1, Const(1))], vec![])],
-            vec![Stmt::SStore(2, SLoad(1))],
-        ]),
-    };
-    let sels = [0u8, 1, 2, 1, 2];
-    Scenario {
-        spec: SPEC_SHANGHAI,
-        disable_nonce_check: false,
-        basefee: 0,
-        world: World {
-            eoas: (0..5).map(|_| EoaDef { balance: Bal::Ether(1), nonce: 0, delegate: None }).collect(),
-            contracts: vec![con],
-            beneficiary: AddrRef::Absent(0xBE),
-        },
-        txs: sels.iter().enumerate().map(|(i, s)| TxDef { sender: i as u8, sel: *s, ..Default::default() }).collect(),
-        grevm: GrevmCfg { concurrency: conc, ..Default::default() },
-        faults: vec![],
-        schedule,
-        db_yields: true,
-    }
+fn usage() -> ! {
+    eprintln!("usage: vcheck check <ID> <quick|thorough> | worker <ID> <tier> <i> <n> <seed> <cases> | replay <path>");
+    std::process::exit(2)
 }
 
 fn main() {
+    // Keep panics of grevm threads out of the report stream; the harness catches them.
     let args: Vec<String> = std::env::args().collect();
-    let n: u64 = args.get(1).map(|s| s.parse().unwrap()).unwrap_or(1000);
-    let conc: u8 = args.get(2).map(|s| s.parse().unwrap()).unwrap_or(2);
-    let sc = chain_scenario(conc, None);
-    let m = materialise(&sc);
-    let txs = materialise_txs(&sc, &m);
-    let rf = run_reference(&m, &m.db, &txs, true, true);
-    println!("reference: {} outcomes err={:?}", rf.outcomes.len(), rf.error);
-    let t0 = std::time::Instant::now();
-    let (mut bad, mut reexec, mut steps, mut sw, mut notcompleted) = (0, 0, 0, 0, 0);
-    for seed in 1..=n {
-        let tail = match seed % 4 { 0 => Tail::Uniform { seed }, 1 => Tail::Sticky { seed, stay: 180 }, 2 => Tail::Pct { seed, depth: 3, span: 400 }, _ => Tail::Starve { seed, victim: (seed % 5) as u8, from: 20, len: 200 } };
-        let sched = Schedule { prefix: vec![], tail, holds: vec![] };
-        let out = run_grevm(&m, m.db.clone(), &txs, &sc.grevm, Some(&sched), None, true);
-        let cls = classify(&out.log);
-        if cls.reexecutions > 0 { reexec += 1; }
-        steps += out.stats.steps; sw += out.stats.switches;
-        if out.verdict != Verdict::Completed { notcompleted += 1; if notcompleted < 4 { println!("seed {seed}: verdict {:?}", out.verdict); } }
-        let r = out.result.clone().map_err(|e| format!("{e:?}"))
-            .and_then(|_| compare_outcomes(&rf.outcomes, &out.outcomes))
-            .and_then(|_| compare_bundles(&rf.bundle, &out.bundle))
-            .and_then(|_| compare_readback(rf.readback.as_ref().unwrap(), out.readback.as_ref().unwrap()));
-        if let Err(e) = r { bad += 1; if bad < 4 { println!("seed {seed}: MISMATCH {e}"); } }
+    if args.len() < 2 {
+        usage();
     }
-    println!("runs={n} conc={conc} time={:?} per_run={:?} steps/run={} switches/run={} reexec_runs={} notcompleted={} bad={}", t0.elapsed(), t0.elapsed() / n as u32, steps / n, sw / n, reexec, notcompleted, bad);
+    match args[1].as_str() {
+        "check" => {
+            if args.len() < 4 {
+                usage();
+            }
+            let seed: u64 = std::env::var("VERIF_SEED").ok().and_then(|s| s.parse().ok()).unwrap_or(1);
+            let Some(meta) = checks::meta(&args[2]) else {
+                eprintln!("unknown property {}", args[2]);
+                std::process::exit(2)
+            };
+            let code = driver::run_parent(&meta, &args[3], seed);
+            std::process::exit(code);
+        }
+        "worker" => {
+            if args.len() < 8 {
+                usage();
+            }
+            if std::env::var("VERIF_SHOW_PANICS").is_err() {
+                std::panic::set_hook(Box::new(|_| {}));
+            }
+            let wa = driver::WorkerArgs {
+                id: args[2].clone(),
+                tier: args[3].clone(),
+                index: args[4].parse().unwrap(),
+                total: args[5].parse().unwrap(),
+                seed: args[6].parse().unwrap(),
+                cases: args[7].parse().unwrap(),
+            };
+            let report = checks::run_worker(&wa);
+            println!("REPORT {}", serde_json::to_string(&report).unwrap());
+        }
+        "debug" => {
+            checks::debug(&args[2]);
+        }
+        "replay" => {
+            if args.len() < 3 {
+                usage();
+            }
+            std::process::exit(checks::replay(&args[2]));
+        }
+        _ => usage(),
+    }
 }
